@@ -2,7 +2,8 @@
 import Batchie.Model.DriverLoop
 import Batchie.Model.ScreenIO
 import Batchie.Model.RetroIO
+import Batchie.Model.TrainStageIO
 
 open Batchie
 
-def main : IO Unit := DriverLoop.run [RetroIO.handle, ScreenIO.handle]
+def main : IO Unit := DriverLoop.run [RetroIO.handle, TrainStageIO.handle, ScreenIO.handle]
